@@ -216,3 +216,8 @@ def run(R) -> None:
     R.rule('C18.R3', lambda: r3_no_storage(R))
     R.rule('C18.R4', lambda: r4_funnel(R))
     R.rule('C18.R5', lambda: r5_export(R))
+
+
+def run_thorough(R) -> None:
+    from rules.common import thorough_compositions
+    thorough_compositions(R, 'C18.T1', ['__getattr__', '__setattr__', '__getitem__', '__setitem__', 'to_dataframe'])
